@@ -22,6 +22,9 @@ static void note(World &w, TaskState &t, int index, int rc, const uint8_t *out, 
 static void skip(World &w) { if (w.stats) w.stats->c[CT_OPS_SKIPPED]++; }
 static void bump(World &w, int c) { if (w.stats) w.stats->c[c]++; }
 static void state(World &w, uint32_t s) { if (w.stats) w.stats->states.insert(s); }
+// sim/ccaller.c: the same calls made by a C caller that holds its objects behind `void *` handles
+extern "C" { void sim_c_hash_free(void *); void sim_c_hmac_free(void *); void sim_c_hkdf_free(void *); void sim_c_prng_free(void *); void sim_c_clean(void *, size_t); extern const int sim_c_handles_opaque; }
+static inline bool c_handle(const Op &op) { return ((op.dseed >> 7) & 1) != 0; }   // plan data: this call is made by the C caller
 static bool all_zero(const uint8_t *p, size_t n) { for (size_t i = 0; i < n; i++) if (p[i]) return false; return true; }
 static std::string u2s(uint64_t v) { return std::to_string((unsigned long long)v); }
 
@@ -525,7 +528,7 @@ static void do_hash(World &w, TaskState &t, const Op &op, int index) {
         if (!o.ever_init && !o.freed) bump(w, CT_P_FREE_NEVER_INIT);
         else if (o.st == ST_LIVE) bump(w, CT_P_FREE_MID);
         else if (o.st == ST_FINAL) bump(w, CT_P_FREE_AFTER_FINAL);
-        { CallScope cs(t); tinyjambu_hash_free(st); if (op.flags & F_TWICE) { tinyjambu_hash_free(st); bump(w, CT_P_FREE_TWICE); } }
+        { CallScope cs(t); if (c_handle(op)) sim_c_hash_free(st); else tinyjambu_hash_free(st); if (op.flags & F_TWICE) { if (c_handle(op)) sim_c_hash_free(st); else tinyjambu_hash_free(st); bump(w, CT_P_FREE_TWICE); } }
         bump(w, CT_F_FREE_INJECTED);
         if (o.st == ST_LIVE) bump(w, CT_F_ABANDON);
         o.st = ST_DEAD; o.freed = true; o.msg.clear();
@@ -648,7 +651,7 @@ static void do_hmac(World &w, TaskState &t, const Op &op, int index) {
         if (!o.ever_init) bump(w, CT_P_FREE_NEVER_INIT);
         else if (o.st == ST_LIVE) bump(w, CT_P_FREE_MID);
         else if (o.st == ST_FINAL) bump(w, CT_P_FREE_AFTER_FINAL);
-        { CallScope cs(t); tinyjambu_hmac_free(st); if (op.flags & F_TWICE) { tinyjambu_hmac_free(st); bump(w, CT_P_FREE_TWICE); } }
+        { CallScope cs(t); if (c_handle(op)) sim_c_hmac_free(st); else tinyjambu_hmac_free(st); if (op.flags & F_TWICE) { if (c_handle(op)) sim_c_hmac_free(st); else tinyjambu_hmac_free(st); bump(w, CT_P_FREE_TWICE); } }
         bump(w, CT_F_FREE_INJECTED);
         o.st = ST_DEAD; o.msg.clear();
         bump(w, CT_P_FREE_CHECKED);
@@ -778,7 +781,7 @@ static void do_hkdf(World &w, TaskState &t, const Op &op, int index) {
     case K_FREE: {
         if (o.st == ST_LIVE) bump(w, CT_P_FREE_MID);
         else if (!o.m.base) bump(w, CT_P_FREE_NEVER_INIT);
-        { CallScope cs(t); tinyjambu_hkdf_free(st); if (op.flags & F_TWICE) { tinyjambu_hkdf_free(st); bump(w, CT_P_FREE_TWICE); } }
+        { CallScope cs(t); if (c_handle(op)) sim_c_hkdf_free(st); else tinyjambu_hkdf_free(st); if (op.flags & F_TWICE) { if (c_handle(op)) sim_c_hkdf_free(st); else tinyjambu_hkdf_free(st); bump(w, CT_P_FREE_TWICE); } }
         bump(w, CT_F_FREE_INJECTED);
         o.st = ST_DEAD;
         bump(w, CT_P_FREE_CHECKED);
@@ -841,10 +844,10 @@ static void do_clean_boundary(World &w, TaskState &t, const Op &op, int index) {
         CallScope cs(t);
         switch (mode) {
         case 0: tinyjambu_clean(p, (unsigned)size); break;
-        case 1: tinyjambu_hash_free((tinyjambu_hash_state_t *)p); break;
-        case 2: tinyjambu_hmac_free((tinyjambu_hmac_state_t *)p); break;
-        case 3: tinyjambu_hkdf_free((tinyjambu_hkdf_state_t *)p); break;
-        default: tinyjambu_prng_free((tinyjambu_prng_state_t *)p); break;
+        case 1: if (c_handle(op)) sim_c_hash_free(p); else tinyjambu_hash_free((tinyjambu_hash_state_t *)p); break;
+        case 2: if (c_handle(op)) sim_c_hmac_free(p); else tinyjambu_hmac_free((tinyjambu_hmac_state_t *)p); break;
+        case 3: if (c_handle(op)) sim_c_hkdf_free(p); else tinyjambu_hkdf_free((tinyjambu_hkdf_state_t *)p); break;
+        default: if (c_handle(op)) sim_c_prng_free(p); else tinyjambu_prng_free((tinyjambu_prng_state_t *)p); break;
         }
     }
     bump(w, mode ? CT_P_FREE_CHECKED : CT_P_CLEAN_CHECKED);
@@ -879,6 +882,7 @@ static void do_clean(World &w, TaskState &t, const Op &op, int index) {
             sim_clean_dirty(t.clean_slot.p() + off, (0xA5A5A5A5ULL << 32) | (uint64_t)(unsigned)size);
         } else
 #endif
+        if (c_handle(op)) sim_c_clean(t.clean_slot.p() + off, size); else
         tinyjambu_clean(t.clean_slot.p() + off, (unsigned)size);
     }
     bump(w, CT_P_CLEAN_CHECKED);
@@ -1173,7 +1177,7 @@ static void do_prng(World &w, TaskState &t, const Op &op, int index) {
     }
     case P_FREE: {
         if (o.st == ST_LIVE) bump(w, CT_P_FREE_MID);
-        { CallScope cs(t); tinyjambu_prng_free(st); if (op.flags & F_TWICE) { tinyjambu_prng_free(st); bump(w, CT_P_FREE_TWICE); } }
+        { CallScope cs(t); if (c_handle(op)) sim_c_prng_free(st); else tinyjambu_prng_free(st); if (op.flags & F_TWICE) { if (c_handle(op)) sim_c_prng_free(st); else tinyjambu_prng_free(st); bump(w, CT_P_FREE_TWICE); } }
         bump(w, CT_F_FREE_INJECTED);
         o.st = ST_DEAD; o.model_valid = false;
         bump(w, CT_P_FREE_CHECKED);
